@@ -449,7 +449,9 @@ class RIM(nn.Module):
 
             if not self.training:
                 # If not training, memory can be significantly reduced by clearing the previous cell.
-                cell_output.set_()
+                if self.skip_connections:
+                    # Without skip connections `intermediate_image` is `cell_output` itself.
+                    cell_output.set_()
                 grad_loglikelihood.set_()
                 del cell_output, grad_loglikelihood
 
